@@ -361,6 +361,89 @@ async fn client_cell(set: Arc<CertSet>, stream_kind: String, answer: String) -> 
     }
 }
 
+/// Several peers open the first streams of a never-used topic at the same moment (separate
+/// connections, so separate server tasks). Everyone answered Ok must be served; with mixed
+/// patterns the losers must be refused with an error frame. The interleaving inside the server
+/// is NOT controlled here: this family samples schedules by repetition.
+async fn race_cell(addr: SocketAddr, set: Arc<CertSet>, mixed: bool, trials: usize, cellid: u64) -> Result<String, Fail> {
+    let class = format!("race:mixed={mixed}");
+    let setup = |what: &str, e: String| fail("setup", what, format!("{what}: {e}"));
+    let mut conns = Vec::new();
+    for _ in 0..4 {
+        conns.push(Arc::new(RawConn::connect(addr, &set.ca, Some(&set.client)).await.map_err(|e| setup("connect", e.to_string()))?));
+    }
+    let helper = RawConn::connect(addr, &set.ca, Some(&set.client)).await.map_err(|e| setup("connect", e.to_string()))?;
+    for trial in 0..trials {
+        if trial > 0 && trial % 20 == 0 {
+            // stay below quinn's limit of concurrent streams per connection
+            conns.clear();
+            for _ in 0..4 {
+                conns.push(Arc::new(RawConn::connect(addr, &set.ca, Some(&set.client)).await.map_err(|e| setup("connect", e.to_string()))?));
+            }
+        }
+        let topic = format!("/c11ns/race{cellid}x{trial}");
+        let tn = TopicName::try_from(topic.as_str()).unwrap();
+        let barrier = Arc::new(tokio::sync::Barrier::new(4));
+        let mut tasks = Vec::new();
+        for (i, c) in conns.iter().enumerate() {
+            let c = c.clone();
+            let b = barrier.clone();
+            let kind = if mixed && i % 2 == 1 { "RegisterRequestor" } else { "RegisterSubscriber" };
+            let f = frame_of(kind, &tn, 0);
+            tasks.push(tokio::spawn(async move {
+                b.wait().await;
+                c.register(f).await.map(|(s, first)| (s, first, kind))
+            }));
+        }
+        let mut subs: Vec<BiStream> = Vec::new();
+        let mut reqs: Vec<BiStream> = Vec::new();
+        for t in tasks {
+            match t.await.map_err(|e| setup("task", e.to_string()))? {
+                Ok((s, Some(Frame::Ok), kind)) => {
+                    if kind == "RegisterSubscriber" {
+                        subs.push(s)
+                    } else {
+                        reqs.push(s)
+                    }
+                }
+                Ok((_, Some(Frame::Error(e)), _)) if mixed && e.code == error_codes::TOPIC_KIND_MISMATCH => {}
+                Ok((_, other, kind)) => return Err(fail("racing-open-misanswered", &class, format!("trial {trial}: {kind} racing for a fresh topic was answered {other:?}"))),
+                Err(e) => return Err(fail("racing-open-unanswered", &class, format!("trial {trial}: {e}"))),
+            }
+        }
+        if !subs.is_empty() && !reqs.is_empty() {
+            return Err(fail("accepted-then-abandoned", &class, format!("trial {trial}: registrations of both messaging patterns racing for one fresh topic were all answered Ok ({} subscribers, {} requestors)", subs.len(), reqs.len())));
+        }
+        if !subs.is_empty() {
+            // everyone told Ok must be served: a publisher's message reaches every subscriber
+            let (mut p, f) = helper.register(frame_of("RegisterPublisher", &tn, 0)).await.map_err(|e| setup("publisher", e.to_string()))?;
+            if f != Some(Frame::Ok) {
+                return Err(fail("racing-open-misanswered", &class, format!("trial {trial}: publisher after the race answered {f:?}")));
+            }
+            let mut pending: Vec<usize> = (0..subs.len()).collect();
+            let t0 = std::time::Instant::now();
+            while !pending.is_empty() {
+                let _ = p.send(text("after-race")).await;
+                let mut still = Vec::new();
+                for i in pending {
+                    match net::next_frame(&mut subs[i], Duration::from_millis(60)).await {
+                        Ok(Some(_)) => {}
+                        Ok(None) | Err("error") => {
+                            return Err(fail("accepted-then-abandoned", &class, format!("trial {trial}: a subscriber that raced for a fresh topic was answered Ok, then its stream was closed without an error frame")));
+                        }
+                        Err(_) => still.push(i),
+                    }
+                }
+                pending = still;
+                if t0.elapsed() > Duration::from_secs(10) {
+                    return Err(fail("accepted-but-not-served", &class, format!("trial {trial}: {} of the subscribers that raced for a fresh topic and were answered Ok never received anything", pending.len())));
+                }
+            }
+        }
+    }
+    Ok("all-racing-opens-served".into())
+}
+
 fn cells(tier: &str) -> Vec<Value> {
     let mut v = Vec::new();
     let mut id = 0u64;
@@ -382,6 +465,11 @@ fn cells(tier: &str) -> Vec<Value> {
             }
         }
     }
+    let trials = if tier == "thorough" { 150 } else { 40 };
+    for k in 0..8 {
+        v.push(json!({"cell": id, "family": "racing-first-registrations", "mixed_patterns": k % 2 == 1, "trials": trials}));
+        id += 1;
+    }
     for sk in ["publisher", "subscriber", "requestor", "replier"] {
         for ans in KINDS.iter().copied().chain(["close"]) {
             v.push(json!({"cell": id, "family": "client-open", "stream": sk, "server_answer": ans}));
@@ -402,6 +490,7 @@ pub async fn run(tier: &str, replaying: bool) -> ! {
             let id = c["cell"].as_u64().unwrap();
             let r = match c["family"].as_str().unwrap() {
                 "first-frame" => first_frame_cell(addr, set, c["first_frame"].as_str().unwrap().into(), c["topic_state"].as_str().unwrap().into(), id).await,
+                "racing-first-registrations" => race_cell(addr, set, c["mixed_patterns"].as_bool().unwrap(), c["trials"].as_u64().unwrap() as usize, id).await,
                 "follow-up" => followup_cell(addr, set, c["role"].as_str().unwrap().into(), c["frame"].as_str().unwrap().into(), c["size"].as_str().unwrap().into(), id).await,
                 _ => client_cell(set, c["stream"].as_str().unwrap().into(), c["server_answer"].as_str().unwrap().into()).await,
             };
@@ -413,7 +502,7 @@ pub async fn run(tier: &str, replaying: bool) -> ! {
     finish(
         rep,
         outs,
-        "first-frame: each of the 8 frame kinds as the first frame of a stream on a topic that is fresh / already pub/sub / already request/reply (24 cells): the stream must be served in its role (exercised with helper peers) or refused with an error frame carrying a code - never Ok followed by abandonment, never a silent close; follow-up: a registered publisher / requestor / replier sends each of the 8 kinds once (small; Message also at the size that fits 1 MiB only before the routing tag; thorough: zero/at-limit for payload-carrying kinds); client-open: the real client's open() for each of the 4 stream kinds against a fake server answering the registration with each of the 8 kinds or closing. After every server-side cell a well-behaved real client must complete a round trip on the same topic",
+        "first-frame: each of the 8 frame kinds as the first frame of a stream on a topic that is fresh / already pub/sub / already request/reply (24 cells): the stream must be served in its role (exercised with helper peers) or refused with an error frame carrying a code - never Ok followed by abandonment, never a silent close; follow-up: a registered publisher / requestor / replier sends each of the 8 kinds once (small; Message also at the size that fits 1 MiB only before the routing tag; thorough: zero/at-limit for payload-carrying kinds); client-open: the real client's open() for each of the 4 stream kinds against a fake server answering the registration with each of the 8 kinds or closing. After every server-side cell a well-behaved real client must complete a round trip on the same topic. racing-first-registrations (auxiliary, schedules SAMPLED by repetition, not enumerated): 4 raw peers on separate connections open the first streams of a fresh topic simultaneously (same pattern, or two of each pattern), 8 cells x 40 (150) trials; everyone answered Ok must be served",
         "hostile inputs enumerated exhaustively over frame kinds x topic states x roles",
         json!({}),
         replaying,
